@@ -1,5 +1,362 @@
 /-
-C10 — property theorems (stub: no theorem stated yet, so no obligation is counted).
+C10 — truncated or corrupted streams are never read as different valid data.
+
+All theorems are about the byte-level reader `Hts.Model.BgzfBytes` (readHeader / readMember /
+gzBody / readAll / hasEOF / bamHeader / bamNext / bamRecords), which runs over ARBITRARY byte strings
+and is tied to bgzf.Reader / bam.Reader by the exhaustive truncation + substitution enumeration of
+`go/cmd/harness/c10.go`.  `Quirks.repaired` is the reader with fixes C10-1, C10-2, C10-3 applied;
+the `unrepaired_*` theorems exhibit, on the same model with `Quirks.unrepaired`, the three defects
+of the unchanged tree.
+
+Streams: `stream ms` for a list `ms` of members, each `Member.WellFramed c` — the 18-byte BGZF header
+with BSIZE = size − 1, deflate data the codec decodes to the payload using exactly those bytes, and
+the trailer carrying `c.crc32 payload` and the length.  `c : Codec` (compress/flate's decoder and
+hash/crc32) is an arbitrary parameter; NO law about it is assumed anywhere in this file.
+
+What is NOT proved here (and cannot be): that changing a byte of a member cannot yield another byte
+string that inflates to a *different* payload with the *same* CRC-32 and length.  That is a property
+of CRC-32/DEFLATE.  `data_only_after_verification` / `all_data_verified` prove that the checks are
+performed on every path, for every input; the enumeration looks for escapes.
 -/
+import Hts.Lemmas.BgzfBytes
+import Hts.Lemmas.BgzfBytesVerify
+import Hts.Lemmas.BgzfBytesBam
 namespace Hts.Props.C10
+open Hts.Model.BgzfBytes Hts.Lemmas.BgzfBytes
+
+/-! ## Truncation: BGZF -/
+
+/-- **prefix_reads_prefix.**  For every stream of well-framed members and EVERY cut `k` (no bound on
+the number or size of members), reading the first `k` bytes returns exactly the payloads of the `j`
+members that lie completely before the cut, and then: the clean end `eof` if `k` is the boundary
+after those `j` members, `io.ErrUnexpectedEOF` if the cut is anywhere inside the next member. -/
+theorem prefix_reads_prefix (c : Codec) (ms : List Member) (hwf : ∀ m ∈ ms, m.WellFramed c) (k : Nat)
+    (hk : k ≤ (stream ms).length) :
+    ∃ j, j ≤ ms.length ∧ offset ms j ≤ k ∧ (j < ms.length → k < offset ms (j + 1)) ∧
+      readAll .repaired c ((stream ms).take k) =
+        (data (ms.take j), if k = offset ms j then .eof else .unexpectedEOF) :=
+  readAll_take c hwf k hk
+
+/-- The intact stream reads back completely and ends cleanly — for every variant of the reader. -/
+theorem intact_stream_reads_back (q : Quirks) (c : Codec) (ms : List Member) (hwf : ∀ m ∈ ms, m.WellFramed c) :
+    readAll q c (stream ms) = (data ms, .eof) :=
+  readAll_stream q c hwf
+
+/-- What a cut stream delivers is a prefix of what the intact stream delivers. -/
+theorem prefix_data_is_prefix (c : Codec) (ms : List Member) (hwf : ∀ m ∈ ms, m.WellFramed c) (k : Nat)
+    (hk : k ≤ (stream ms).length) :
+    (readAll .repaired c ((stream ms).take k)).1 <+: (readAll .repaired c (stream ms)).1 := by
+  obtain ⟨j, _, _, _, hr⟩ := readAll_take c hwf k hk
+  rw [hr, readAll_stream .repaired c hwf]
+  exact ⟨data (ms.drop j), (data_take_append_drop ms j).symm⟩
+
+/-- **Clean end iff member boundary.** -/
+theorem clean_eof_iff_member_boundary (c : Codec) (ms : List Member) (hwf : ∀ m ∈ ms, m.WellFramed c) (k : Nat)
+    (hk : k ≤ (stream ms).length) :
+    (readAll .repaired c ((stream ms).take k)).2 = .eof ↔ ∃ j, j ≤ ms.length ∧ k = offset ms j := by
+  obtain ⟨j, hj, hlo, hhi, hr⟩ := readAll_take c hwf k hk
+  rw [hr]
+  constructor
+  · intro h
+    refine ⟨j, hj, ?_⟩
+    apply Classical.byContradiction
+    intro hne
+    simp [hne] at h
+  · rintro ⟨j', hj', hk'⟩
+    have : j' = j := by
+      apply Classical.byContradiction
+      intro hne
+      rcases Nat.lt_or_gt_of_ne hne with hlt | hgt
+      · have := offset_strict ms hlt hj
+        omega
+      · have h1 := hhi (by omega)
+        have h2 := offset_mono ms (show j + 1 ≤ j' by omega)
+        omega
+    subst this
+    simp [hk']
+
+/-- A cut strictly inside a member is reported as `io.ErrUnexpectedEOF`. -/
+theorem cut_inside_member_is_error (c : Codec) (ms : List Member) (hwf : ∀ m ∈ ms, m.WellFramed c) (k : Nat)
+    (hk : k ≤ (stream ms).length) (hin : ¬ ∃ j, j ≤ ms.length ∧ k = offset ms j) :
+    (readAll .repaired c ((stream ms).take k)).2 = .unexpectedEOF := by
+  obtain ⟨j, hj, _, _, hr⟩ := readAll_take c hwf k hk
+  rw [hr]
+  have : ¬ k = offset ms j := fun h => hin ⟨j, hj, h⟩
+  simp [this]
+
+/-- **HasEOF is false whenever a proper prefix ends cleanly.**  Hypothesis (the "no data block equals
+the marker" law, in the form the statement needs): no member other than the last ends with the 28
+marker bytes (each has at least 28 bytes). -/
+theorem truncated_clean_end_hasEOF_false (c : Codec) (ms : List Member) (hwf : ∀ m ∈ ms, m.WellFramed c)
+    (hnm : ∀ m ∈ ms.dropLast, 28 ≤ m.bytes.length ∧ ¬ magicBlock <:+ m.bytes)
+    (k : Nat) (hk : k < (stream ms).length)
+    (hclean : (readAll .repaired c ((stream ms).take k)).2 = .eof) :
+    (hasEOF ((stream ms).take k)).1 = false := by
+  obtain ⟨j, hj, rfl⟩ := (clean_eof_iff_member_boundary c ms hwf k (Nat.le_of_lt hk)).1 hclean
+  have hjlt : j < ms.length := by
+    rw [stream_length hwf] at hk
+    apply Classical.byContradiction
+    intro h
+    have : j = ms.length := by omega
+    subst this
+    omega
+  rw [take_offset hwf j]
+  have hsub : ∀ m ∈ ms.take j, 28 ≤ m.bytes.length ∧ ¬ magicBlock <:+ m.bytes := by
+    intro m hm
+    apply hnm
+    rw [List.dropLast_eq_take]
+    have : ms.take j = (ms.take (ms.length - 1)).take j := by
+      rw [List.take_take]; congr 1; omega
+    rw [this] at hm
+    exact List.mem_of_mem_take hm
+  have := stream_no_marker_suffix (ms.take j) hsub
+  cases h : (hasEOF (stream (ms.take j))).1 with
+  | false => rfl
+  | true => exact absurd ((hasEOF_true_iff _).1 h) this
+
+/-! ## Corruption: data only after verification (EVERY byte string, every reader variant) -/
+
+/-- **data_only_after_verification.**  For an arbitrary byte string `s`: if reading a block at `s`
+succeeds, then `readMember` framed a member there and the gzip reader reached the *verified* end of
+its body: the payload is what the deflate decoder produced, and the eight bytes after the deflate
+data are its CRC-32 and its length (for every gzip member inside the block, as compress/gzip's
+multistream mode allows several).  There is no other path on which a block yields data. -/
+theorem data_only_after_verification (q : Quirks) (c : Codec) (s payload rest : Bytes)
+    (h : readBlock q c s = .ok (payload, rest)) :
+    ∃ f, readMember q c s = .ok f ∧ f.rest = rest ∧ Verified c f.body payload ∧ payload.length ≤ MaxBlockSize :=
+  readBlock_ok_verified q c s payload rest h
+
+/-- A single-member body that was accepted: CRC-32 and ISIZE of the decoded data match the trailer. -/
+theorem verified_trailer_matches (c : Codec) (buf data : Bytes) (h : gzBody c buf = .ok data) :
+    ∃ payload used, c.inflate buf = .ok payload used ∧ 8 ≤ (buf.drop used).length ∧
+      leNat ((buf.drop used).take 4) = c.crc32 payload ∧
+      leNat (((buf.drop used).drop 4).take 4) = payload.length % 4294967296 ∧
+      payload <+: data := by
+  cases gzBody_ok_verified c buf data h with
+  | single tr _ => exact ⟨_, _, tr.inflated, tr.present, tr.crc, tr.isize, List.prefix_refl _⟩
+  | multi tr _ _ => exact ⟨_, _, tr.inflated, tr.present, tr.crc, tr.isize, List.prefix_append _ _⟩
+
+/-- The member `readMember` frames is exactly the BSIZE+1 bytes its header announces: header,
+then a non-empty body, then the rest of the input. -/
+theorem framed_member_is_bsize_bytes (q : Quirks) (c : Codec) (s : Bytes) (f : Framed)
+    (h : readMember q c s = .ok f) :
+    ∃ hl, readHeader c.crc32 s = .ok (f.hdr, hl) ∧
+      expectedMemberSize f.hdr.extra = some (hl + f.body.length) ∧
+      0 < f.body.length ∧ s = s.take hl ++ (f.body ++ f.rest) :=
+  readMember_ok_split q c s f h
+
+/-- **all_data_verified.**  For EVERY byte string: everything `readAll` returns is the concatenation
+of the payloads of members that were framed back to back from the start of the input and each passed
+verification; the reader stopped with the error of the first block that did not. -/
+theorem all_data_verified (q : Quirks) (c : Codec) (s : Bytes) :
+    ∃ blocks, Delivered q c s blocks (readAll q c s).2 ∧ (readAll q c s).1 = (blocks.map (·.2)).flatten :=
+  readAll_delivered q c s
+
+/-- The repaired reader reports the clean end of a block read only on EMPTY input: no header field,
+BSIZE value or body content of any byte string makes `readBlock` return `io.EOF` (on the unchanged
+tree two paths did: `unrepaired_clean_eof_inside_member`, `unrepaired_zero_need_is_clean_eof`). -/
+theorem clean_eof_only_on_empty_input (c : Codec) (s : Bytes) (h : readBlock .repaired c s = .error .eof) :
+    s = [] :=
+  readBlock_repaired_eof c s h
+
+/-- **The corruption clause, as far as it is provable.**  For EVERY byte string (so for every stream
+with any number of altered bytes): if the repaired reader ends cleanly, then the entire input, to its
+last byte, was consumed as back-to-back members, each framed by its own BSIZE and each passing the
+CRC-32/ISIZE verification of what was inflated from it, and the data returned is exactly theirs.
+Hence an altered stream that does not fail consists solely of members whose checksums match their
+decoded content; whether such an altered member can decode to *different* content is CRC-32's
+business, not the reader's. -/
+theorem clean_end_only_after_whole_input_verified (c : Codec) (s : Bytes)
+    (h : (readAll .repaired c s).2 = .eof) : FullyFramed c s (readAll .repaired c s).1 :=
+  clean_end_fully_framed c s h
+
+/-- The recursion of `readAll` always makes progress (its guard branch is dead). -/
+theorem readAll_unfolds (q : Quirks) (c : Codec) (s : Bytes) :
+    readAll q c s =
+      match readBlock q c s with
+      | .error e => ([], e)
+      | .ok (payload, rest) => (payload ++ (readAll q c rest).1, (readAll q c rest).2) :=
+  readAll_eq q c s
+
+/-! ## Truncation: BAM -/
+
+/-- **bam_prefix_reads_prefix.**  A BGZF stream whose data is a BAM header `h` (any byte string
+`DecodeBinary` accepts and rejects when cut, `HdrOk`) followed by well-formed records `rs`, cut at any
+`k`: with `j` the number of complete members before the cut and `n` the number of data bytes they hold,
+* if `n` ends inside the header, `bam.NewReader` fails;
+* otherwise `Read` returns exactly the `i` records that are complete within those `n` bytes, and then
+  the clean end `eof` **iff** `k` is a member boundary **and** `n` is a record boundary; in every other
+  case `io.ErrUnexpectedEOF`. -/
+theorem bam_prefix_reads_prefix (c : Codec) (sem : BamSem) (ms : List Member) (hwf : ∀ m ∈ ms, m.WellFramed c)
+    (h : Bytes) (hh : HdrOk sem h) (rs : List Rec) (hrs : ∀ r ∈ rs, r.WellFormed)
+    (hok : ∀ r ∈ rs, sem.recOk r.body = true) (hdata : data ms = h ++ recBytes rs)
+    (k : Nat) (hk : k ≤ (stream ms).length) :
+    ∃ j, j ≤ ms.length ∧ offset ms j ≤ k ∧ (j < ms.length → k < offset ms (j + 1)) ∧
+      (((data (ms.take j)).length < h.length →
+          ∃ e, bamReadAll .repaired c sem ((stream ms).take k) = .headerErr e) ∧
+       (h.length ≤ (data (ms.take j)).length →
+          ∃ i, i ≤ rs.length ∧ roff rs i ≤ (data (ms.take j)).length - h.length ∧
+            (i < rs.length → (data (ms.take j)).length - h.length < roff rs (i + 1)) ∧
+            bamReadAll .repaired c sem ((stream ms).take k) =
+              .records ((rs.take i).map Rec.body)
+                (if k = offset ms j ∧ (data (ms.take j)).length - h.length = roff rs i then .eof
+                 else .unexpectedEOF))) := by
+  obtain ⟨j, hj, hlo, hhi, hr⟩ := readAll_take c hwf k hk
+  refine ⟨j, hj, hlo, hhi, ?_⟩
+  -- the delivered data is the first n bytes of header ++ records
+  have hpre : data (ms.take j) = (h ++ recBytes rs).take (data (ms.take j)).length := by
+    rw [← hdata, data_take_append_drop ms j, List.take_left]
+  have hn : (data (ms.take j)).length ≤ (h ++ recBytes rs).length := by
+    rw [← hdata]
+    rw [data_take_append_drop ms j, List.length_append]; omega
+  obtain ⟨hA, hB⟩ := bam_flat_take sem hh hrs hok (data (ms.take j)).length hn
+    (if k = offset ms j then .eof else .unexpectedEOF)
+  rw [← hpre] at hA hB
+  constructor
+  · intro hlt
+    obtain ⟨e', he'⟩ := hA hlt
+    refine ⟨e', ?_⟩
+    simp only [bamReadAll, hr]
+    rw [he']
+  · intro hge
+    obtain ⟨i, hi, hilo, hihi, f, hf, hrec⟩ := hB hge
+    refine ⟨i, hi, hilo, hihi, ?_⟩
+    simp only [bamReadAll, hr]
+    rw [hf]
+    simp only [hrec]
+    congr 1
+    by_cases hkb : k = offset ms j <;> by_cases hrb : (data (ms.take j)).length - h.length = roff rs i <;>
+      simp [hkb, hrb, shortErr]
+
+/-- Every binary BAM header laid out as the SAM specification says (magic, l_text, text the text parser
+accepts, n_ref, n_ref entries of l_name / NUL-terminated name / l_ref) satisfies the header hypothesis
+`HdrOk` of `bam_prefix_reads_prefix`: it is accepted whatever follows, and every proper prefix of it
+is rejected. -/
+theorem bam_header_wellformed_is_hdrOk (sem : BamSem) (h : Hdr) (hw : h.WellFormed sem) : HdrOk sem h.bytes :=
+  hdrOk_of_wellFormed sem h hw
+
+/-! ## The three defects of the unchanged tree, on the same model (`Quirks.unrepaired`) -/
+
+/-- Defect C10-1 (DESIGN §6 #31): on the unchanged tree a cut exactly 18 bytes into ANY member —
+right after its gzip header — is a clean end. -/
+theorem unrepaired_clean_eof_inside_member (c : Codec) (m : Member) (hm : m.WellFramed c) :
+    readAll .unrepaired c (m.bytes.take 18) = ([], .eof) := by
+  have hb := Member.body_length hm
+  have e : m.bytes.take 18 = m.header ++ [] := by
+    rw [Member.bytes, List.take_append, Member.header_length,
+      List.take_of_length_le (by rw [Member.header_length]; omega)]
+    simp
+  have h1 : ¬ m.size = 18 := by simp [Member.size]; omega
+  have h2 : ¬ m.size < 18 := by simp [Member.size]; omega
+  have hd : (m.header ++ ([] : Bytes)).drop 18 = [] := by
+    rw [List.drop_left' (Member.header_length m)]
+  have hl : ¬ (([] : Bytes).length ≥ m.size - 18) := by simp [Member.size]; omega
+  apply readAll_of_error
+  rw [readBlock, readMember, e, readHeader_member]
+  simp only [expectedMemberSize_member, Member.bsize_eq hm, h1, h2, if_false, hd, hl]
+  simp [Quirks.unrepaired]
+
+/-- Defect C10-2 (§6 #32): on the unchanged tree a member header whose BSIZE field is 17 (member size
+18 = the header alone) is a clean end, whatever follows: a single-byte substitution in a later member
+silently drops the rest of the file.  The repaired reader reports `ErrCorrupt`. -/
+theorem unrepaired_zero_need_is_clean_eof (c : Codec) (m0 m1 m2 m3 xfl os : UInt8) (t : Bytes) :
+    readMember .unrepaired c
+        ([0x1f, 0x8b, 0x08, 0x04, m0, m1, m2, m3, xfl, os, 0x06, 0x00, 0x42, 0x43, 0x02, 0x00, 17, 0] ++ t)
+      = .error .eof ∧
+    readMember .repaired c
+        ([0x1f, 0x8b, 0x08, 0x04, m0, m1, m2, m3, xfl, os, 0x06, 0x00, 0x42, 0x43, 0x02, 0x00, 17, 0] ++ t)
+      = .error .corrupt := by
+  have f8 : ((4 : UInt8) &&& 8 != 0) = false := by decide
+  have f16 : ((4 : UInt8) &&& 16 != 0) = false := by decide
+  have f2 : ((4 : UInt8) &&& 2 != 0) = false := by decide
+  have hl : ¬ (t.length + 1 + 1 + 1 + 1 + 1 + 1 < 6) := by omega
+  constructor <;>
+    simp [readMember, readHeader, readExtra, readHdrCrc, flagSet, readOptString, f8, f16, f2, hl,
+      expectedMemberSize, findSub, bgzfExtraPrefix, List.isPrefixOf, Quirks.unrepaired, Quirks.repaired]
+
+/-- …and so, on the unchanged tree, the first block's data followed by a clean end. -/
+theorem unrepaired_substituted_bsize_drops_data (c : Codec) (m : Member) (hm : m.WellFramed c)
+    (m0 m1 m2 m3 xfl os : UInt8) (t : Bytes) :
+    readAll .unrepaired c
+        (m.bytes ++ ([0x1f, 0x8b, 0x08, 0x04, m0, m1, m2, m3, xfl, os, 0x06, 0x00, 0x42, 0x43, 0x02, 0x00, 17, 0] ++ t))
+      = (m.payload, .eof) := by
+  rw [readAll_member_append .unrepaired c hm, readAll_of_error (e := .eof)]
+  · simp
+  · rw [readBlock, (unrepaired_zero_need_is_clean_eof c m0 m1 m2 m3 xfl os t).1]
+
+/-- Defect C10-3: on the unchanged tree a BAM stream that ends (cleanly, i.e. at a block boundary)
+right after the 4-byte length prefix of a record is a clean end inside that record. -/
+theorem unrepaired_bam_clean_eof_inside_record (r : Rec) (hr : r.WellFormed) :
+    bamNext .unrepaired ⟨r.pre, .eof⟩ = .error .eof ∧ bamNext .repaired ⟨r.pre, .eof⟩ = .error .unexpectedEOF := by
+  have h4 : (4 : Nat) ≠ 0 := by decide
+  have hp := hr.pos
+  have hs := hr.small
+  have n0 : r.body.length ≠ 0 := by omega
+  have l1 : r.pre.length ≥ 4 := by rw [hr.preLen]; exact Nat.le_refl 4
+  have t1 : r.pre.take 4 = r.pre := List.take_of_length_le (by rw [hr.preLen]; exact Nat.le_refl 4)
+  have d1 : r.pre.drop 4 = [] := List.drop_eq_nil_of_le (by rw [hr.preLen]; exact Nat.le_refl 4)
+  constructor <;>
+    simp [bamNext, Flat.readFull, h4, l1, t1, d1, hr.preVal, n0, Nat.not_le.mpr hs,
+      Quirks.unrepaired, Quirks.repaired]
+
+/-! ## Non-vacuity: the hypotheses are satisfiable by non-trivial values -/
+
+/-- a toy codec: `03 00` is the empty deflate stream (as in the real EOF marker), `01 00 00 ff ff` the
+empty stored block compress/flate writes for an empty payload; otherwise a length
+byte followed by that many literal bytes; the checksum is the byte sum -/
+def toyCodec : Codec where
+  inflate := fun buf =>
+    match buf with
+    | 3 :: 0 :: _ => .ok [] 2
+    | 1 :: 0 :: 0 :: 0xff :: 0xff :: _ => .ok [] 5
+    | n :: t => if t.length ≥ n.toNat then .ok (t.take n.toNat) (n.toNat + 1) else .fail 2
+    | [] => .fail 2
+  crc32 := fun p => p.foldl (fun a b => (a + b.toNat) % 4294967296) 0
+
+def toyData : Member := ⟨0, 0, 0, 0, 0, 0xff, [3, 7, 8, 9], [24, 0, 0, 0], [3, 0, 0, 0], [7, 8, 9]⟩
+def toyEmpty : Member := ⟨0, 0, 0, 0, 0, 0xff, [1, 0, 0, 0xff, 0xff], [0, 0, 0, 0], [0, 0, 0, 0], []⟩
+def toyMarker : Member := ⟨0, 0, 0, 0, 0, 0xff, [3, 0], [0, 0, 0, 0], [0, 0, 0, 0], []⟩
+
+example : toyData.WellFramed toyCodec := by constructor <;> decide
+example : toyEmpty.WellFramed toyCodec := by constructor <;> decide
+example : toyMarker.WellFramed toyCodec := by constructor <;> decide
+/-- the marker member is byte for byte the BGZF EOF marker -/
+example : toyMarker.bytes = magicBlock := by decide
+
+/-- a closed three-member stream (data, empty block, marker) satisfying every hypothesis of the
+truncation theorems, including the marker hypothesis -/
+example : (∀ m ∈ [toyData, toyEmpty, toyMarker], m.WellFramed toyCodec) ∧
+    (∀ m ∈ [toyData, toyEmpty, toyMarker].dropLast, 28 ≤ m.bytes.length ∧ ¬ magicBlock <:+ m.bytes) ∧
+    (hasEOF (stream [toyData, toyEmpty, toyMarker])).1 = true := by
+  refine ⟨?_, ?_, by decide⟩
+  · intro m hm
+    simp only [List.mem_cons, List.not_mem_nil, or_false] at hm
+    rcases hm with rfl | rfl | rfl <;> constructor <;> decide
+  · intro m hm
+    simp only [List.dropLast, List.mem_cons, List.not_mem_nil, or_false] at hm
+    rcases hm with rfl | rfl <;> decide
+
+/-- a well-formed BAM record and a header satisfying `HdrOk` (magic, l_text = 3, "@CO", n_ref = 0) -/
+example : (⟨[2, 0, 0, 0], [0xaa, 0xbb]⟩ : Rec).WellFormed := by constructor <;> decide
+
+example : HdrOk ⟨fun _ => true, fun _ => true⟩ (bamMagic ++ [3, 0, 0, 0] ++ [0x40, 0x43, 0x4f] ++ [0, 0, 0, 0]) := by
+  constructor
+  · intro t e
+    simp [bamHeader, bamRefs, Flat.readFull, Flat.read, bamMagic, leNat]
+  · intro n hn e
+    have hn' : n < 15 := by simpa [bamMagic] using hn
+    have : n = 0 ∨ n = 1 ∨ n = 2 ∨ n = 3 ∨ n = 4 ∨ n = 5 ∨ n = 6 ∨ n = 7 ∨ n = 8 ∨ n = 9 ∨ n = 10 ∨ n = 11
+        ∨ n = 12 ∨ n = 13 ∨ n = 14 := by omega
+    rcases this with rfl | rfl | rfl | rfl | rfl | rfl | rfl | rfl | rfl | rfl | rfl | rfl | rfl | rfl | rfl <;>
+      simp [bamHeader, Flat.readFull, Flat.read, bamMagic, leNat]
+
+/-- a header with a text and one reference entry ("c1\0", length 1000) is well-formed -/
+example : (⟨[3, 0, 0, 0], [0x40, 0x43, 0x4f], [1, 0, 0, 0], [⟨[3, 0, 0, 0], [0x63, 0x31, 0], [0xe8, 3, 0, 0]⟩]⟩ : Hdr).WellFormed
+    ⟨fun _ => true, fun _ => true⟩ := by
+  constructor <;> try decide
+  intro r hr
+  simp only [List.mem_cons, List.not_mem_nil, or_false] at hr
+  subst hr
+  constructor <;> decide
+
 end Hts.Props.C10
